@@ -198,6 +198,7 @@ class _MapPool:
 def make_config(variant):
     """variant: which list-valued/None-valued options are present."""
     has_np, has_vv, has_per, has_ref, blobs = variant
+    pool_dim = blobs and not (has_np or has_vv or has_per or has_ref)  # the pool dimension: smallest blobs variant only (bounds the paths)
 
     def harness(ctx: PathCtx):
         calls = {"n": 0}
@@ -219,7 +220,7 @@ def make_config(variant):
         per = [integer(ctx, f"per{i}", lo=-1, hi=3) for i in range(has_per)] if has_per else None
         ref = [integer(ctx, f"ref{i}", lo=-1, hi=3) for i in range(has_ref)] if has_ref else None
         # the pool option does not enter any documented constraint: the verdict must not depend on it (blobs variants only, to bound the paths)
-        with_pool = bool(boolean(ctx, "with_pool")) if blobs else False
+        with_pool = bool(boolean(ctx, "with_pool")) if pool_dim else False
         kw = dict(pool=_MapPool() if with_pool else None, n_dim=n_dim, n_particles=SInt(npv, -2, 4) if has_np else None, ess_ratio=SFloat(ess),
                   volume_variation=SFloat(vv) if has_vv else None, sample=SStr(sample), resample=SStr(resample),
                   vectorize=vec, blobs_dtype="float64" if blobs else None,
@@ -252,7 +253,7 @@ def make_config(variant):
         return raised is None
 
     def concrete_kw(m):
-        kw = dict(pool=_MapPool() if (blobs and bool(m.get("with_pool", False))) else None,
+        kw = dict(pool=_MapPool() if (pool_dim and bool(m.get("with_pool", False))) else None,
                   n_dim=int(m["n_dim"]), n_particles=int(m["n_particles"]) if has_np else None, ess_ratio=float(m["ess_ratio"]),
                   volume_variation=float(m["volume_variation"]) if has_vv else None, sample=str(m["sample"]), resample=str(m["resample"]),
                   vectorize=bool(m["vectorize"]), blobs_dtype="float64" if blobs else None,
@@ -310,7 +311,7 @@ def make_config(variant):
     return Obligation(name, harness, replay=replay, validate=validate,
                       encodes=[Sampler.__init__, config_mod.SamplerConfig.__post_init__, config_mod.SamplerConfig.validate, core_mod.SamplerCore.__init__],
                       bounds="n_dim in [-2,3], n_particles in [-2,4] or None, ess_ratio/volume_variation real in [-2,3] or None, "
-                             f"sample/resample arbitrary strings, vectorize symbolic, pool None or a pool-like object (blobs variants), periodic list length {has_per}, reflective list length {has_ref} with entries in [-1,3]",
+                             f"sample/resample arbitrary strings, vectorize symbolic, pool None or a pool-like object (variant np0-vv0-per0-ref0-blobs only), periodic list length {has_per}, reflective list length {has_ref} with entries in [-1,3]",
                       theory="QF_LIA/LRA/S", max_paths=90000)
 
 
